@@ -1001,7 +1001,7 @@ VARIANTS = [
 
 META = {
     "design_ref": "DESIGN.md section 3, C11",
-    "technique": "site enumeration of text transformations + text-provenance dataflow (whole text vs. node slice) + path-condition check of the literal-aware idioms + exhaustive evaluation of the literal recogniser (expression interpreter over all spellings); token-loop exemption sets evaluated on a sample token; shape of the tree-comparison oracle (parses the texts as they are)",
+    "technique": "site enumeration of text transformations + text-provenance dataflow (whole text vs. node slice) + path-condition check of the literal-aware idioms + exhaustive evaluation of the literal recogniser (expression interpreter over all spellings); token-loop exemption sets evaluated on a sample token; shape of the tree-comparison oracle (parses the texts as they are); the dedent / indent pair is accepted only where every use of the dedented text stands under a positive tree comparison of the input with its round trip (path condition)",
     "level_text": ("Decides on the current source which layout stages apply a token-blind transformation to the whole module "
                    "text (each such site alters string-literal contents by construction and is a finding keyed by function, "
                    "callee and operand) and that the remaining stages are literal-aware by one of four checked idioms; that "
